@@ -247,6 +247,26 @@ func (t *Tx) SortUnconfirmedTx() (map[string]*pb.Transaction, TxGraph, map[strin
 			txGraph[refTxID] = append(txGraph[refTxID], txID)
 		}
 	}
+	// a tx that only reads a key version must stay in front of the unconfirmed tx that overwrites it,
+	// otherwise the packed block fails its own read-set check when it is replayed
+	overwriters := map[string]string{} // bucket/key@version -> unconfirmed tx that supersedes this version
+	for txID, tx := range txMap {
+		for _, txIn := range tx.TxInputsExt {
+			if writesExtKey(tx, txIn) {
+				overwriters[extVersionKey(txIn)] = txID
+			}
+		}
+	}
+	for txID, tx := range txMap {
+		for _, txIn := range tx.TxInputsExt {
+			if writesExtKey(tx, txIn) {
+				continue
+			}
+			if writerID, exist := overwriters[extVersionKey(txIn)]; exist && writerID != txID {
+				txGraph[txID] = append(txGraph[txID], writerID)
+			}
+		}
+	}
 	txMapSize := int64(len(txMap))
 	if txMapSize > 0 {
 		avgDelay := totalDelay / txMapSize //平均unconfirm滞留时间
@@ -256,6 +276,20 @@ func (t *Tx) SortUnconfirmedTx() (map[string]*pb.Transaction, TxGraph, map[strin
 	}
 	t.UnconfirmTxAmount = txMapSize
 	return txMap, txGraph, delayedTxMap, nil
+}
+
+func extVersionKey(txIn *protos.TxInputExt) string {
+	return fmt.Sprintf("%s/%s@%x_%d", txIn.Bucket, txIn.Key, txIn.RefTxid, txIn.RefOffset)
+}
+
+// writesExtKey tells whether tx writes the key it reads through txIn
+func writesExtKey(tx *pb.Transaction, txIn *protos.TxInputExt) bool {
+	for _, txOut := range tx.TxOutputsExt {
+		if txOut.Bucket == txIn.Bucket && string(txOut.Key) == string(txIn.Key) {
+			return true
+		}
+	}
+	return false
 }
 
 //从disk还原unconfirm表到内存, 初始化的时候
